@@ -1,15 +1,233 @@
 /-
   TE.Driver.Window — protocol adapters of the Window family (see TE/Driver/Count.lean for the conventions).
+  Each windowed class is a `Pack` around `TE.Window.ringImpl` / `aurocImpl`; the adapters
+  unpack tensors, perform the shape checks of the functional `_update`s, and render what
+  `compute()` returns: `(lifetime, windowed)` when lifetime is enabled, else `windowed`;
+  empty tensors before the first update.
+  `spec.<Class>` packs run the trivially correct queue of TE/Spec/Window.lean instead
+  (state = every statistic/sample seen so far).
 -/
 import TE.Driver.Fam
+import TE.Model.Window
+import TE.Spec.Window
 namespace TE.Driver
-open TE
+open TE TE.Window
+
+structure WCfg where
+  tasks : Nat
+  cap : Nat
+  lifetime : Bool
+
+def parseWCfg (cfg : Args) (capKey : String) : Except String WCfg := do
+  let tasks := (← cfg.nat? "num_tasks").getD 1
+  let cap := (← cfg.nat? capKey).getD 100
+  if tasks < 1 then throw "num_tasks < 1 (constructor raises ValueError)"
+  if cap < 1 then throw s!"{capKey} < 1 (constructor raises ValueError)"
+  pure { tasks, cap, lifetime := cfg.bool "enable_lifetime" true }
+
+/-- rows of a `(T, n)` tensor (a 1-D tensor is one row). -/
+def taskRows (x : T) : List (List Q) := if x.ndim = 2 then x.rows else [x.data]
+
+/-- the `num_tasks` shape rule shared by CTR / calibration / NE / AUROC checks. -/
+def taskShapeOk (tasks : Nat) (x : T) : Bool :=
+  if tasks = 1 then x.ndim ≤ 1 else x.ndim ≥ 2 && x.shape.head? == some tasks
+
+/-- optional weight argument: tensor, numeric literal or absent (`dflt`). -/
+inductive WArg where | tensor (x : T) | scalar (q : Q)
+
+def weightArg (a : Args) (k : String) : Except String WArg :=
+  match a.get? k with
+  | some (.t x) => .ok (.tensor x)
+  | some (.s "none") => .ok (.scalar 1)
+  | some (.s s) => do pure (.scalar (← parseQ s))
+  | none => .ok (.scalar 1)
+  | _ => .error s!"bad weight arg '{k}'"
+
+def constRows (like : List (List Q)) (q : Q) : List (List Q) := like.map fun r => r.map fun _ => q
+
+def vecOut (T : Nat) (f : Nat → XQ) : String := showVecX ((List.range T).map f)
+
+def tupleOut (lifetime : Bool) (life win : String) : String :=
+  if lifetime then life ++ " " ++ win else win
+
+def emptyOut (lifetime : Bool) : String := if lifetime then "0: 0:" else "0:"
+
+def ringPack (c : WCfg) (whole : Bool) (stat : Args → Except Err Parts) (value : Parts → String) : Pack :=
+  ⟨Ring Parts, ringImpl partsAcc c.cap whole stat
+      (fun life win => .ok (tupleOut c.lifetime (value life) (value win))) (emptyOut c.lifetime)⟩
+
+/-- the queue specification as a class model: remembers every statistic. -/
+def specPack (c : WCfg) (stat : Args → Except Err Parts) (value : Parts → String) : Pack :=
+  ⟨List Parts, {
+    init := []
+    upd := fun s a => do let x ← stat a; .ok (s ++ [x])
+    mrg := fun _ _ => .error .other
+    out := fun s => Spec.Window.computeSpec partsAcc c.cap
+      (fun life win => .ok (tupleOut c.lifetime (value life) (value win))) (emptyOut c.lifetime) s }⟩
+
+/- ---------- WindowedClickThroughRate ---------- -/
+
+def ctrStatA (tasks : Nat) (a : Args) : Except Err Parts := do
+  let i ← liftP (a.tensor "input")
+  let w ← liftP (weightArg a "weights")
+  if i.ndim != 1 && i.ndim != 2 then throw .value
+  match w with
+  | .tensor x => if x.shape != i.shape then throw .value
+  | _ => pure ()
+  if !taskShapeOk tasks i then throw .value
+  let rows := taskRows i
+  let wr := match w with | .tensor x => taskRows x | .scalar q => constRows rows q
+  pure (ctrStat rows wr)
+
+def ctrShow (tasks : Nat) (p : Parts) : String :=
+  vecOut tasks fun t => ctrValue ((part p 0 tasks).getD t 0) ((part p 1 tasks).getD t 0)
+
+/- ---------- WindowedWeightedCalibration ---------- -/
+
+def calStatA (tasks : Nat) (a : Args) : Except Err Parts := do
+  let i ← liftP (a.tensor "input")
+  let t ← liftP (a.tensor "target")
+  let w ← liftP (weightArg a "weight")
+  if i.shape != t.shape then throw .value
+  if !taskShapeOk tasks i then throw .value
+  match w with
+  | .tensor x => if x.shape != i.shape then throw .value
+  | _ => pure ()
+  let rows := taskRows i
+  let wr := match w with | .tensor x => taskRows x | .scalar q => constRows rows q
+  pure (calStat rows (taskRows t) wr)
+
+def calShow (tasks : Nat) (p : Parts) : String :=
+  vecOut tasks fun t => calValue ((part p 0 tasks).getD t 0) ((part p 1 tasks).getD t 0)
+
+/- ---------- WindowedBinaryNormalizedEntropy ---------- -/
+
+def neStatA (tasks : Nat) (fromLogits : Bool) (a : Args) : Except Err Parts := do
+  let i ← liftP (a.tensor "input")
+  let t ← liftP (a.tensor "target")
+  let w ← liftP (a.tensor? "weight")
+  if i.shape != t.shape then throw .value
+  match w with
+  | some x => if x.shape != i.shape then throw .value
+  | none => pure ()
+  if !taskShapeOk tasks i then throw .value
+  if i.data.isEmpty then throw .runtime      -- `input.max()` of an empty tensor
+  if !fromLogits && i.data.any (fun x => 1 < x || x < 0) then throw .value
+  let rows := taskRows i
+  let wr := match w with | some x => taskRows x | none => constRows rows 1
+  pure (neStat fromLogits rows (taskRows t) wr)
+
+def neShow (tasks : Nat) (p : Parts) : String :=
+  vecOut tasks fun t =>
+    neValue ((part p 0 tasks).getD t 0) ((part p 1 tasks).getD t 0) ((part p 2 tasks).getD t 0)
+
+/- ---------- WindowedMeanSquaredError ---------- -/
+
+def mseStatA (tasks : Nat) (a : Args) : Except Err Parts := do
+  let i ← liftP (a.tensor "input")
+  let t ← liftP (a.tensor "target")
+  let w ← liftP (a.tensor? "sample_weight")
+  if i.ndim ≥ 3 || t.ndim ≥ 3 then throw .value
+  if i.shape != t.shape then throw .value
+  if i.ndim = 0 then throw .index             -- `target.size(0)` of a 0-dim tensor
+  match w with
+  | some x => if x.shape.head? != t.shape.head? then throw .value
+  | none => pure ()
+  if tasks = 1 && i.ndim > 1 then throw .value
+  if tasks != 1 && (i.ndim = 1 || i.shape[1]? != some tasks) then throw .value
+  let samples (x : T) : List (List Q) := if x.ndim = 2 then x.rows else x.data.map ([·])
+  let n := i.shape.headD 0
+  let wv := match w with | some x => x.data | none => List.replicate n 1
+  pure (mseStat (samples i) (samples t) wv tasks)
+
+def mseShow (tasks : Nat) (raw : Bool) (p : Parts) : String :=
+  let w := part0 p 1
+  let vals := (List.range tasks).map fun j => mseValue ((part p 0 tasks).getD j 0) w
+  if raw then (if tasks = 1 then showScalarX (vals.headD .nan) else showVecX vals)
+  else showScalarX (xmean vals)
+
+/- ---------- WindowedBinaryAUROC ---------- -/
+
+def transposeCols (inp tgt wgt : List (List Q)) (n : Nat) : List Col :=
+  (List.range n).map fun j =>
+    (inp.zip (tgt.zip wgt)).map fun r => (r.1.getD j 0, r.2.1.getD j 0, r.2.2.getD j 0)
+
+def aurocCols (tasks : Nat) (a : Args) : Except Err (List Col) := do
+  let i ← liftP (a.tensor "input")
+  let t ← liftP (a.tensor "target")
+  let w ← liftP (a.tensor? "weight")
+  if i.shape != t.shape then throw .value
+  match w with
+  | some x => if x.shape != t.shape then throw .value
+  | none => pure ()
+  if !taskShapeOk tasks i then throw .value
+  let rows := taskRows i
+  let wr := match w with | some x => taskRows x | none => constRows rows 1
+  let n := if i.ndim = 2 then i.shape[1]?.getD 0 else i.data.length
+  pure (transposeCols rows (taskRows t) wr n)
+
+def aoutShow : AOut → String
+  | .scalar v => showScalarX (.val v)
+  | .vec v => showVecX (v.map .val)
+
+/-- the sample queue: `binary_auroc` on the last `N` samples (raises on an empty window). -/
+def aurocSpecPack (c : WCfg) : Pack :=
+  ⟨List Col, {
+    init := []
+    upd := fun s a => do let x ← aurocCols c.tasks a; .ok (s ++ x)
+    mrg := fun _ _ => .error .other
+    out := fun s =>
+      let w := Spec.Window.lastN c.cap s
+      if w.isEmpty then .error .runtime
+      else if c.tasks = 1 then .ok (aoutShow (.scalar (pairAuroc (row w 0))))
+      else .ok (aoutShow (.vec ((List.range c.tasks).map fun t => pairAuroc (row w t)))) }⟩
+
+/- ---------- tables ---------- -/
 
 /-- (functional name, class name, configured family) — sufficient-statistic / cache-all classes. -/
 def windowFams : List (String × String × (Args → Except String Fam)) := []
 
+def withCfg (cfg : Args) (capKey : String) (k : WCfg → Except String Pack) : Except String Pack :=
+  match parseWCfg cfg capKey with
+  | .error e => .error e
+  | .ok c => k c
+
+def mkCtr (spec : Bool) (cfg : Args) : Except String Pack :=
+  withCfg cfg "max_num_updates" fun c =>
+    .ok ((if spec then specPack c else ringPack c false) (ctrStatA c.tasks) (ctrShow c.tasks))
+
+def mkCal (spec : Bool) (cfg : Args) : Except String Pack :=
+  withCfg cfg "max_num_updates" fun c =>
+    .ok ((if spec then specPack c else ringPack c false) (calStatA c.tasks) (calShow c.tasks))
+
+def mkNe (spec : Bool) (cfg : Args) : Except String Pack :=
+  withCfg cfg "max_num_updates" fun c =>
+    let fl := cfg.bool "from_logits" false
+    .ok ((if spec then specPack c else ringPack c false) (neStatA c.tasks fl) (neShow c.tasks))
+
+def mkMse (spec : Bool) (cfg : Args) : Except String Pack :=
+  withCfg cfg "max_num_updates" fun c =>
+    let mo := cfg.strD "multioutput" "uniform_average"
+    if mo != "raw_values" && mo != "uniform_average" then .error "bad multioutput (constructor raises ValueError)"
+    else .ok ((if spec then specPack c else ringPack c true) (mseStatA c.tasks) (mseShow c.tasks (mo == "raw_values")))
+
+def mkAuroc (spec : Bool) (cfg : Args) : Except String Pack :=
+  withCfg cfg "max_num_samples" fun c =>
+    .ok (if spec then aurocSpecPack c
+         else ⟨SBuf, aurocImpl c.tasks c.cap (aurocCols c.tasks) aoutShow⟩)
+
 /-- (class name, packaged class model) — classes that are not `additive` (own state machine). -/
-def windowPacks : List (String × (Args → Except String Pack)) := []
+def windowPacks : List (String × (Args → Except String Pack)) := [
+  ("WindowedClickThroughRate", mkCtr false),
+  ("WindowedWeightedCalibration", mkCal false),
+  ("WindowedBinaryNormalizedEntropy", mkNe false),
+  ("WindowedMeanSquaredError", mkMse false),
+  ("WindowedBinaryAUROC", mkAuroc false),
+  ("spec.WindowedClickThroughRate", mkCtr true),
+  ("spec.WindowedWeightedCalibration", mkCal true),
+  ("spec.WindowedBinaryNormalizedEntropy", mkNe true),
+  ("spec.WindowedMeanSquaredError", mkMse true),
+  ("spec.WindowedBinaryAUROC", mkAuroc true)]
 
 /-- (request name, handler) — functionals without a class twin and `spec.*` oracles. -/
 def windowFns : List (String × (Args → Except Err String)) := []
